@@ -6,7 +6,7 @@ import z3
 from . import loader
 from .values import *
 from .state import *
-from .engine import MAX_INLINE_DEPTH
+from .engine import MAX_INLINE_DEPTH, LIST_LEN, LIST_ETYPE, etype_id
 from .execu import Exec, from_py, SPEC_FORMS
 from .contracts import REG, parse_type, type_str
 
@@ -336,6 +336,7 @@ class Calls(Exec):
             bound[n] = self.coerce(st, self.adapt_default(st, bound[n], parse_type(T)), parse_type(T), node,
                                    'argument %s of %s' % (n, c.key))
         fr = self.spec_frame(st, c, bound)
+        self._last_contract_call = (c, fr)
         # pre@call
         for r in c.requires:
             g = self.eval_spec(st, r, fr)
@@ -423,6 +424,30 @@ class Calls(Exec):
                                         'inconsistent with the caller state)' % (self.cur_key, getattr(node, 'lineno', '?'), c.key))
             return []
         return [(st, res)]
+
+    def contract_frame_for_call(self, st, call_node):
+        """(contract, spec frame over the bound arguments) of a call expression `f(a, ...)` of a repository
+        function under a non-inline contract; evaluated on a spec-mode copy (no obligations, no effects)"""
+        probe = st.fork()
+        probe.spec = True
+        fv = self.ev1(call_node.func, probe)
+        if not (isinstance(fv, VFn) and fv.what[0] == 'repo'):
+            raise Unsupported('list comprehension: the element expression does not call a repository function', call_node)
+        c = REG.fns.get(fv.what[1])
+        if c is None or c.inline:
+            raise Unsupported('list comprehension: %s has no (non-inline) contract' % fv.what[1], call_node)
+        if call_node.keywords or any(isinstance(a, ast.Starred) for a in call_node.args):
+            raise Unsupported('list comprehension: keyword / starred arguments', call_node)
+        args = [self.ev1(a, probe) for a in call_node.args]
+        m, fn = loader.get_function(c.key)
+        bound = self.bind_args(probe, fn, args, {}, call_node, m)
+        for n in list(bound):
+            T = c.params.get(n)
+            if T is None:
+                raise Unsupported('contract of %s does not type parameter %r' % (c.key, n), call_node)
+            bound[n] = self.coerce(probe, self.adapt_default(probe, bound[n], parse_type(T)), parse_type(T), call_node,
+                                   'argument %s of %s' % (n, c.key))
+        return c, self.spec_frame(probe, c, bound)
 
     def _old_view(self, state, frame_idx):
         "a snapshot whose top frame is frame `frame_idx` of `state` (old() evaluates in the top frame)"
@@ -533,6 +558,9 @@ class Calls(Exec):
             else:
                 self.havoc_owned(st, bound)
             return
+        if '::' in mexpr:
+            self.havoc_classwide(st, mexpr, node)
+            return
         s = st.fork()
         s.spec = True
         s.frames.append(fr.copy())
@@ -586,6 +614,47 @@ class Calls(Exec):
                 self.rec_store(st, v, tree.slice.value, self.make_fresh(st, T, 'rec'))
                 return
         raise Unsupported('modifies clause %r' % mexpr, node)
+
+    def classwide_keys(self, mexpr, node=None):
+        """'Cls::fld' / 'Cls::*': field(s) of EVERY instance of Cls; 'list[T]::*': length and items of every list
+        whose declared element type is T.  -> ('fields', [heap keys]) or ('lists', elem type)"""
+        left, fld = [x.strip() for x in mexpr.split('::', 1)]
+        if left.startswith('list['):
+            return ('lists', parse_type(left)[1])
+        cc = REG.classes.get(left)
+        if cc is None:
+            raise Unsupported('modifies clause %r: unknown class' % mexpr, node)
+        keys = []
+        for f, T in cc.fields.items():
+            if fld != '*' and f != fld:
+                continue
+            for j, sort in enumerate(slots(parse_type(T))):
+                keys.append(((left, f, j), sort))
+        if not keys:
+            raise Unsupported('modifies clause %r: no such field' % mexpr, node)
+        return ('fields', keys)
+
+    def havoc_classwide(self, st, mexpr, node):
+        kind, what = self.classwide_keys(mexpr, node)
+        if kind == 'fields':
+            for key, sort in what:
+                self.harr(st, key, sort)
+                self.hset(st, key, fresh(z3.ArraySort(IntS, sort), 'hv_' + key[1]))
+            return
+        elem = what
+        for j, sort in enumerate(slots(elem)):
+            key = self.items_key(elem, j)
+            self.harr(st, key, z3.ArraySort(IntS, sort))
+            self.hset(st, key, fresh(z3.ArraySort(IntS, z3.ArraySort(IntS, sort)), 'hv_items'))
+        cur = self.harr(st, LIST_LEN, IntS)
+        et = self.harr(st, LIST_ETYPE, IntS)
+        na = fresh(z3.ArraySort(IntS, IntS), 'hv_len')
+        r = fresh_int('fr')
+        st.assume(z3.ForAll([r], z3.Implies(z3.Select(et, r) != etype_id(elem), z3.Select(na, r) == z3.Select(cur, r)),
+                            patterns=[z3.Select(na, r)]))
+        r2 = fresh_int('fr')
+        st.assume(z3.ForAll([r2], z3.Select(na, r2) >= 0, patterns=[z3.Select(na, r2)]))
+        self.hset(st, LIST_LEN, na)
 
     def havoc_owned(self, st, bound):
         """havoc every heap location of objects with reference >= bound (objects owned by the current
@@ -1283,8 +1352,18 @@ class Calls(Exec):
             return [(st, NONE)]
         if name in ('insert', 'extend', 'sort', 'reverse', 'remove'):
             old_n = n
+            old_items = [z3.Select(self.harr(st, self.items_key(l.elem, j), z3.ArraySort(IntS, sort)), l.t)
+                         for j, sort in enumerate(slots(l.elem))] if name == 'reverse' else None
             self.fresh_list_contents(st, l)
             n2 = self.list_len(st, l)
+            if name == 'reverse':
+                # exact: item i of the reversed list is item n-1-i of the original
+                for j, sort in enumerate(slots(l.elem)):
+                    new_items = z3.Select(self.harr(st, self.items_key(l.elem, j), z3.ArraySort(IntS, sort)), l.t)
+                    i_ = fresh_int('rv')
+                    st.assume(z3.ForAll([i_], z3.Implies(AND(i_ >= 0, i_ < old_n),
+                                                         z3.Select(new_items, i_) == z3.Select(old_items[j], old_n - 1 - i_)),
+                                        patterns=[z3.Select(new_items, i_)]))
             if name == 'insert':
                 st.assume(n2 == old_n + 1)
             elif name in ('sort', 'reverse'):
